@@ -954,17 +954,22 @@ func (p *ProjectRunner) removeProcessLogs(name string) *pclog.ProcessLogBuffer {
 func (p *ProjectRunner) removeProcess(name string) error {
 	p.removeProcessLogs(name)
 	p.deleteProcessConfig(name)
+	var err error
 	running := p.getRunningProcess(name)
 	if running != nil {
-		err := running.shutDownNoRestart()
+		err = running.shutDownNoRestart()
 		if err != nil {
 			log.Err(err).Msgf("failed to remove process %s", name)
-			return err
 		} else {
 			running.waitForCompletion()
 		}
 	}
-	return nil
+	// the process does not exist anymore: neither does its state
+	p.statesMutex.Lock()
+	delete(p.processStates, name)
+	delete(p.processStateLocks, name)
+	p.statesMutex.Unlock()
+	return err
 }
 
 func (p *ProjectRunner) addProcessAndRun(proc types.ProcessConfig) {
